@@ -147,7 +147,7 @@ func (g *gen) builderWriteStep() Step {
 	case 3:
 		return Step{A: "wR", I: int64([]int{65, 0x203a, 0x2039, 0xe9, 0x65e5, 10, 0xd800, -1}[g.r.Intn(8)])}
 	case 4:
-		return Step{A: "grow", I: int64([]int{0, 1, 2, 3, 5, 8, 64, 100}[g.r.Intn(8)])}
+		return Step{A: "grow", I: int64([]int{0, 1, 2, 3, 5, 8, 64, 100, 1000, 5000}[g.r.Intn(10)])}
 	default:
 		return g.safeScriptNoCtl(1)[0]
 	}
@@ -167,7 +167,7 @@ func (g *gen) manualWriteStep() Step {
 	case 4:
 		return Step{A: "mwr", I: int64([]int{65, 0x203a, 0x2039, 0xe9, 0x65e5, 10, 0xdfff}[g.r.Intn(7)])*2 + int64(g.r.Intn(2))}
 	case 5:
-		return Step{A: "grow", I: int64([]int{0, 1, 2, 3, 5, 8, 64, 100}[g.r.Intn(8)])}
+		return Step{A: "grow", I: int64([]int{0, 1, 2, 3, 5, 8, 64, 100, 1000, 5000}[g.r.Intn(10)])}
 	case 6:
 		return Step{A: "setmode", I: int64(g.r.Intn(3))}
 	default:
